@@ -84,7 +84,9 @@ impl<'a> RenumVisitor<'a> {
             Integer(col, n) => (col, *n as f64),
             _ => return,
         };
-        if n > LineNumber::max_value() as f64 {
+        // No number was written in the source: the "no line" sentinel of bare RESTORE/RUN
+        // and the defaults of open LIST/DELETE ranges have nothing to rewrite.
+        if n < 0.0 || n > LineNumber::max_value() as f64 || col.start == col.end {
             return;
         }
         let n = n as u16;
